@@ -252,7 +252,7 @@ func (c *c10Cast) run(cfg c10Cfg, hist []int) (out c10Run) {
 				w = mk()
 				vsched.SetHoldSpawns(true)
 			}
-					return false
+			return false
 		}
 		for _, e := range hist {
 			if step(e) {
